@@ -3,7 +3,7 @@ from tools.extract import Unit, Rw
 from tools.krun import Harness
 
 PROPERTY = "C09"
-PRELUDE = ["../common/base.rs", "prelude.rs"]
+PRELUDE = ["../common/base.rs", "prelude.rs", "apply_stubs.rs"]
 F = "crates/core/src/commands/forget.rs"
 S = "crates/core/src/repofile/snapshotfile.rs"
 
@@ -45,6 +45,52 @@ UNITS = [
 """),
 ]
 
+UNITS += [
+    Unit(name="keep_apply", file=F, anchor="pub fn apply(", within="impl KeepOptions {", ret_name="r",
+         wrap_open="impl KeepOptions {", wrap_close="}",
+         functions=["commands::forget::KeepOptions::apply"],
+         rewrites=[
+             Rw("", "verr()", count=None, kind="err", why="RusticError construction dropped"),
+             Rw("snapshots.sort_unstable_by(|sn1, sn2| sn1.cmp(sn2).reverse());", "vsort_newest_first(&mut snapshots);", why="sort_unstable_by(cmp reversed): permutation, newest first (assumed std contract)"),
+             Rw("snapshots.into_iter().peekable()", "VPeek::new(snapshots)", why="into_iter().peekable() -> iterator stub (sequence + position)"),
+             Rw(r"iter\.peek\(\)\.is_some_and\(\|(?P<x>\w+)\| (?P<body>[^)]*)\)", r"(match iter.vpeek() { Some(\g<x>) => \g<body>, None => false })", regex=True,
+                why="Option::is_some_and(|x| body) -> match (definition, body verbatim); Peekable::peek -> vpeek"),
+             Rw("iter.peek().is_some()", "iter.vpeek().is_some()", count=None, why="Peekable::peek -> vpeek"),
+             Rw('vec!["snapshot"]', 'vreason("snapshot")', count=None, why="vec! of one reason string"),
+             Rw('vec!["unchanged"]', 'vreason("unchanged")', count=None, why="vec! of one reason string"),
+             Rw("reasons.iter().map(ToString::to_string).collect()", "vreasons_to_strings(&reasons)", why="&str -> String conversion of the reasons (not compared)"),
+         ],
+         contract="""
+    ensures
+        /*@invalid_options_refused*/ !self.valid ==> r is Err,
+        // the result lists the group's snapshots newest first, one entry each, and every keep flag is the rule of the
+        // statement: protected snapshots are kept, expired ones removed, an unchanged predecessor is removed if asked,
+        // everything else is decided by the keep rules, driven with the previous snapshot, `has_next` and the latest time
+        /*@apply_decides_each_snapshot_by_the_rules*/ r matches Ok(v) ==> exists|s: Seq<SnapshotFile>| #![auto]
+            s.to_multiset() == snapshots@.to_multiset() && newest_first(s) && v@.len() == s.len()
+            && forall|i: int| 0 <= i < s.len() ==> (#[trigger] v@[i]).snapshot == s[i]
+                && v@[i].keep == keep_at(self.counters@, self.delete_unchanged, s, *now, i),
+""",
+         loops={1: """
+            invariant
+                0 <= iter.pos@ <= iter.seq@.len(), iter.seq@.len() > 0,
+                iter.seq@.to_multiset() == orig.to_multiset(), newest_first(iter.seq@),
+                latest_time == iter.seq@[0].time,
+                snaps@.len() == iter.pos@,
+                last == last_of(iter.seq@, iter.pos@),
+                group_keep.delete_unchanged == self.delete_unchanged,
+                group_keep.counters@ == counters_at(self.counters@, self.delete_unchanged, iter.seq@, *now, iter.pos@),
+                forall|i: int| 0 <= i < iter.pos@ ==> (#[trigger] snaps@[i]).snapshot == iter.seq@[i]
+                    && snaps@[i].keep == keep_at(self.counters@, self.delete_unchanged, iter.seq@, *now, i),
+            ensures iter.pos@ >= iter.seq@.len(),
+            decreases iter.seq@.len() - iter.pos@,
+"""},
+         hints=[("before", "vsort_newest_first(&mut snapshots);", "        let ghost orig = snapshots@;"),
+                ("after_loop", "1", "        proof { let s1 = iter.seq@; assert(s1.to_multiset() == orig.to_multiset()); assert(newest_first(s1)); assert(snaps@.len() == s1.len()); }"),
+                ("before", "return Ok(snaps);", "            proof { let s0 = snapshots@; assert(s0.len() == 0); assert(newest_first(s0)); assert(s0.to_multiset() == snapshots@.to_multiset()); }")],
+         ),
+]
+
 KANI = [
     Harness("commands::forget::verif_kani::c09_matches_rule_table",
             functions=["commands::forget::KeepOptions::matches (counter logic; keep_within*/ids/tags empty)"],
@@ -57,7 +103,7 @@ KANI_ASSUMPTIONS = [
 ]
 META = {
     "not_covered": [
-        "KeepOptions::apply (sorting, peekable iteration, delete_unchanged), grouping",
+        "grouping (ForgetGroups::from_grouped_snapshots_with_retention); in the apply unit `matches` is two uninterpreted functions (KEPT, NEXT) of its arguments -- its per-call contract is the Kani harness",
         "keep_within* (jiff Span arithmetic)",
         "time-zone handling inside jiff (accessors are assumed pure functions of the Zoned value)",
     ],
